@@ -463,6 +463,47 @@ func (e *Engine) Generate(prop, tier string, seed uint64, run int) *sim.Plan {
 		id++
 		p.Steps = append(p.Steps, sim.Step{Id: id, Op: "wipe", R: r.Intn(nrep), D: 10, N: r.Intn(2)})
 	}
+	// local I/O errors that last for a while (a full disk, a directory that cannot be renamed
+	// into): in half of the fault runs, some of the steps that write locally meet one, starting at
+	// their k-th storage mutation and lasting n mutations. A stream of its own: the plans are
+	// otherwise what they were.
+	switch prop {
+	case "C01", "C02", "C04", "C05", "C09":
+		// (C10, C11 and C12 quantify over sessions and inputs, not over storage failures: what the
+		// cache must still serve after an error between a git write and its own update is not
+		// stated, and their oracles compare against stored data)
+		er := sim.NewRand(sim.Mix(rs, 0x10E77))
+		if faults && er.Chance(0.5) {
+			p.Cfg["ioerr"] = true
+			for i := range p.Steps {
+				st := &p.Steps[i]
+				switch st.Op {
+				case "newbug", "edit", "commit", "identmut", "remove", "pull", "merge":
+					if st.F == "" && st.K != "pull-api" && er.Chance(0.12) {
+						st.F = fmt.Sprintf("ioerr:%s:%d:%d", []string{"any", "any", "nospace", "rename"}[er.Intn(4)], er.Intn(14), []int{1, 1, 2, 3, 8, 1000}[er.Intn(6)])
+					}
+				}
+			}
+		}
+	}
+	if prop == "C11" {
+		// the one storage failure under which "the cache agrees with a rebuild" needs no
+		// interpretation: an action during which the disk refuses every write. Nothing can have
+		// changed in git, so what the cache serves afterwards must be what it served before.
+		er := sim.NewRand(sim.Mix(rs, 0x10E78))
+		if er.Chance(0.5) {
+			p.Cfg["ioerr"] = true
+			for i := range p.Steps {
+				st := &p.Steps[i]
+				switch st.Op {
+				case "newbug", "edit", "commit", "identmut", "remove":
+					if st.F == "" && er.Chance(0.1) {
+						st.F = "ioerr:any:0:1000"
+					}
+				}
+			}
+		}
+	}
 	return p
 }
 
